@@ -35,26 +35,43 @@ Definition Up (s: pstate) (l: list tok) : Prop :=
 Lemma UpR_inv : forall sc rw t l, UpR sc rw (t :: l) -> exists i r sc', rw = i :: r /\ cl sc i = Some (t, sc') /\ UpR sc' r l.
 Proof. intros sc rw t l H. inversion H as [|sc0 i r t' sc' l' Hc HU' Hs Hr]. exists i, r, sc'. split; [reflexivity|split; assumption]. Qed.
 
-Definition Same (s s1: pstate) : Prop := before P s1 = before P s /\ idx P s1 = idx P s /\ ticks P s1 = ticks P s.
-Definition Adv (t: tok) (s s2: pstate) : Prop := before P s2 = Some t :: before P s /\ idx P s2 = S (idx P s) /\ ticks P s2 = (ticks P s + 1)%N.
+(* a scope stack without typedef names; [SC s s']: the step from s to s' introduces none, and it changes the depth of the
+   stack by delivering braces only (every lemma of this library and every level statement built on it carries it, so that
+   declarations - which add names to the innermost scope - can be followed through expressions and statements) *)
+Definition NoTD (sc: list (list (option str * bool))) : Prop := Forall (Forall (fun e => snd e = false)) sc.
+Definition SC (s s': pstate) : Prop := NoTD (scopes P s) -> NoTD (scopes P s').
+
+Definition Same (s s1: pstate) : Prop := before P s1 = before P s /\ idx P s1 = idx P s /\ ticks P s1 = ticks P s /\ SC s s1.
+Definition Adv (t: tok) (s s2: pstate) : Prop := before P s2 = Some t :: before P s /\ idx P s2 = S (idx P s) /\ ticks P s2 = (ticks P s + 1)%N /\ SC s s2.
 
 (* [Ran s s' n]: from s to s' the parser consumed n tokens and called next() at most 3 n times (a token in front
    of which a parenthesised type name is tried is read once by each speculative attempt and once for good) *)
 Definition Ran (s s': pstate) (n: nat) : Prop :=
-  idx P s' = idx P s + n /\ N.to_nat (ticks P s') <= N.to_nat (ticks P s) + 3 * n.
+  idx P s' = idx P s + n /\ N.to_nat (ticks P s') <= N.to_nat (ticks P s) + 3 * n /\ SC s s'.
 
 (* the same for a postfix chain, which is entered after at most two speculative attempts: two reads to spare *)
 Definition RanR (s s': pstate) (n: nat) : Prop :=
-  idx P s' = idx P s + n /\ N.to_nat (ticks P s') + 2 <= N.to_nat (ticks P s) + 3 * n.
+  idx P s' = idx P s + n /\ N.to_nat (ticks P s') + 2 <= N.to_nat (ticks P s) + 3 * n /\ SC s s'.
 
 Lemma Same_refl : forall s, Same s s.
-Proof. repeat split; reflexivity. Qed.
+Proof. intros s. split; [reflexivity|split; [reflexivity|split; [reflexivity|exact (fun H => H)]]]. Qed.
 Lemma Same_trans : forall a b c, Same a b -> Same b c -> Same a c.
-Proof. intros a b c [H1 [H2 H2']] [H3 [H4 H4']]. repeat split; congruence. Qed.
+Proof. intros a b c [H1 [H2 [H2' K1]]] [H3 [H4 [H4' K2]]]. split; [congruence|split; [congruence|split; [congruence|exact (fun H => K2 (K1 H))]]]. Qed.
 Lemma Adv_Same : forall t a b c, Adv t a b -> Same b c -> Adv t a c.
-Proof. intros t a b c [H1 [H2 H2']] [H3 [H4 H4']]. repeat split; congruence. Qed.
+Proof. intros t a b c [H1 [H2 [H2' K1]]] [H3 [H4 [H4' K2]]]. split; [congruence|split; [congruence|split; [congruence|exact (fun H => K2 (K1 H))]]]. Qed.
 Lemma Same_Adv : forall t a b c, Same a b -> Adv t b c -> Adv t a c.
-Proof. intros t a b c [H1 [H2 H2']] [H3 [H4 H4']]. repeat split; congruence. Qed.
+Proof. intros t a b c [H1 [H2 [H2' K1]]] [H3 [H4 [H4' K2]]]. split; [congruence|split; [congruence|split; [congruence|exact (fun H => K2 (K1 H))]]]. Qed.
+
+(* delivering an item keeps a typedef-free scope stack typedef-free *)
+Lemma cl_notd : forall sc i t sc', cl sc i = Some (t, sc') -> NoTD sc -> NoTD sc'.
+Proof.
+  intros sc i t sc' Hc HN. destruct i as [k v p fa|msg p f|]; cbn [cl] in Hc; try discriminate.
+  destruct (kind_eqb k K_LBRACE).
+  - injection Hc as _ <-. constructor; [constructor|exact HN].
+  - destruct (kind_eqb k K_RBRACE).
+    + destruct sc as [|s0 [|s1 sr]]; try discriminate Hc. injection Hc as _ <-. inversion HN; assumption.
+    + injection Hc as _ <-. exact HN.
+Qed.
 
 (* delivery of one item *)
 Lemma deliver1_plain : forall (s: pstate) i r t sc', raw P s = i :: r -> cl (scopes P s) i = Some (t, sc') ->
@@ -88,7 +105,7 @@ Proof.
       unfold bind at 1. rewrite Hd. unfold bind at 1. unfold get at 1. cbn [after]. rewrite last_is_none_snoc. reflexivity.
     + cbn [after]. rewrite Ha. reflexivity.
     + exists [t], l. cbn [after scopes raw]. rewrite Ha. split; [reflexivity|split; [reflexivity|exact HU']].
-    + repeat split; reflexivity.
+    + split; [reflexivity|split; [reflexivity|split; [reflexivity|intros HN; exact (cl_notd _ _ _ _ Hc HN)]]].
   - cbn [app] in Hl. injection Hl as E Hl. subst t0. exists s, (map Some a). split; [|split; [|split]].
     + unfold fill. cbn [fill_aux]. unfold bind at 1. unfold get at 1. rewrite Ha. reflexivity.
     + rewrite Ha. reflexivity.
@@ -113,12 +130,12 @@ Qed.
 Lemma advance_up : forall s t l, Up s (t :: l) ->
   exists s2, advance P s = Ok (t, s2) /\ Up s2 l /\ Adv t s s2.
 Proof.
-  intros s t l H. destruct (fill1_up s t l H) as [s1 [r [Hf [Ha [[a [l2 [Ha2 [Hl HU]]]] [HS1 [HS2 HS3]]]]]]].
+  intros s t l H. destruct (fill1_up s t l H) as [s1 [r [Hf [Ha [[a [l2 [Ha2 [Hl HU]]]] [HS1 [HS2 [HS3 HS4]]]]]]]].
   eexists. split; [|split].
   - unfold advance, next_tok. unfold bind at 1. unfold bind at 1. rewrite Hf. rewrite Ha. reflexivity.
   - rewrite Ha in Ha2. destruct a as [|t0 a]; [discriminate|]. cbn [map] in Ha2. injection Ha2 as E1 E2.
     cbn [app] in Hl. injection Hl as _ Hl. exists a, l2. cbn [after scopes raw]. split; [exact E2|split; [exact Hl|exact HU]].
-  - repeat split; cbn [before idx ticks]; congruence.
+  - split; [cbn [before]; congruence|split; [cbn [idx]; congruence|split; [cbn [ticks]; congruence|exact HS4]]].
 Qed.
 
 Lemma accept_hit : forall s t l k, Up s (t :: l) -> kind_eqb (tk t) k = true ->
@@ -162,7 +179,7 @@ Proof.
         unfold bind at 1. rewrite Hd2. unfold bind at 1. unfold get at 1. cbn [after]. rewrite last_is_none_snoc. reflexivity.
       + unfold sA. cbn [after]. rewrite Ha. reflexivity.
       + exists [t1; t2], l. unfold sA. cbn [after scopes raw]. rewrite Ha. split; [reflexivity|split; [reflexivity|exact HU2]].
-      + repeat split; reflexivity.
+      + split; [reflexivity|split; [reflexivity|split; [reflexivity|intros HN; exact (cl_notd _ _ _ _ Hc2 (cl_notd _ _ _ _ Hc HN))]]].
     - cbn [app] in Hl. injection Hl as E Hl. subst a1. subst l2. destruct (UpR_inv _ _ _ _ HU) as [i [r [sc' [Hr [Hc HU']]]]].
       destruct (deliver1_plain s i r t2 sc' Hr Hc) as [fa Hd].
       eexists. exists []. split; [|split; [|split]].
@@ -171,7 +188,7 @@ Proof.
         unfold bind at 1. unfold get at 1. cbn [after]. rewrite Ha. cbn [map app length Nat.ltb Nat.leb]. reflexivity.
       + cbn [after]. rewrite ?Ha. reflexivity.
       + exists [t1; t2], l. cbn [after scopes raw]. rewrite ?Ha. split; [reflexivity|split; [reflexivity|exact HU']].
-      + repeat split; reflexivity.
+      + split; [reflexivity|split; [reflexivity|split; [reflexivity|intros HN; exact (cl_notd _ _ _ _ Hc HN)]]].
     - cbn [app] in Hl. injection Hl as E1 E2 Hl. subst a1 a2. exists s, (map Some a). split; [|split; [|split]].
       + unfold fill. cbn [fill_aux]. unfold bind at 1. unfold get at 1. rewrite Ha. reflexivity.
       + rewrite Ha. reflexivity.
@@ -183,15 +200,16 @@ Qed.
 
 (* reset to a mark taken one token ago *)
 Lemma reset_one : forall s t b mk l, before P s = Some t :: b -> idx P s = S mk -> Up s l ->
-  exists s', reset P mk s = Ok (tt, s') /\ Up s' (t :: l) /\ before P s' = b /\ idx P s' = mk /\ ticks P s' = ticks P s.
+  exists s', reset P mk s = Ok (tt, s') /\ Up s' (t :: l) /\ before P s' = b /\ idx P s' = mk /\ ticks P s' = ticks P s /\ SC s s'.
 Proof.
-  intros s t b mk l Hb Hi [a [l2 [Ha [Hl HU]]]]. eexists. split; [|split; [|split; [|split]]].
+  intros s t b mk l Hb Hi [a [l2 [Ha [Hl HU]]]]. eexists. split; [|split; [|split; [|split; [|split]]]].
   - unfold reset. rewrite Hi, Hb. assert (E: nsub (S mk) mk = 1). { clear. induction mk; [reflexivity|exact IHmk]. }
     rewrite E. cbn [unwind]. reflexivity.
   - exists (t :: a), l2. cbn [after scopes raw map]. rewrite Ha. split; [reflexivity|split; [cbn; congruence|exact HU]].
   - reflexivity.
   - reflexivity.
   - reflexivity.
+  - exact (fun H => H).
 Qed.
 
 Lemma mark_eq : forall s, mark P s = Ok (idx P s, s).
@@ -206,8 +224,13 @@ Proof. intros s l Ha HU. exists [], l. rewrite Ha. split; [reflexivity|split; [r
 End SL.
 
 (* collect the cost facts in the context and finish by arithmetic *)
+Ltac sc_tac :=
+  intros;
+  repeat match goal with H: ?A -> _, H2: ?A |- _ => specialize (H H2) end;
+  try assumption; tauto.
 Ltac cost_tac :=
-  unfold Ran, RanR, Same, Adv in *;
+  unfold Ran, RanR, Same, Adv, SC in *;
   repeat match goal with H: _ /\ _ |- _ => destruct H end;
-  do 4 (simpl length in *; rewrite ?app_length in * ); lia.
+  do 4 (simpl length in *; rewrite ?app_length in * );
+  first [lia | (split; [lia|split; [lia|sc_tac]]) | (split; [lia|sc_tac]) | sc_tac].
 
